@@ -138,7 +138,8 @@ def handle (j : Json) : Json :=
     method := getStr j "method", status := getInt j "status",
     responses := (getArr j "responses").map parseResp,
     hdrs := (getArr j "hdrs").map (fun p => match p with
-      | .arr a => (asStr (a.getD 0 .null), asStr (a.getD 1 .null)) | _ => ("", "")),
+      | .arr a => (asStr (a.getD 0 .null), if a.size ≥ 2 then some (asStr (a.getD 1 .null)) else none)
+      | _ => ("", none)),
     body := getStr j "body", readFails := getBool j "readFails", bodyDec := parseDec (getD j "bodyDec" .null) }
   let out := validateResponse canon genReg o i
   let spec := acceptB canon genReg o i
@@ -174,8 +175,9 @@ def handle (j : Json) : Json :=
        ((checkedHeaders r).flatMap (fun h => match h.schema, hdrDec canon i.hdrs h with
           | some s, some d =>
             decBranch s d ++ (if h.explode then ["hdr.explode"] else []) ++
+            (if lookup (canon h.name) i.hdrs == some none then ["hdr.no_values"] else []) ++
             (match s.core.ty, lookup (canon h.name) i.hdrs with
-             | .object, some raw =>
+             | .object, some (some raw) =>
                (match propsFromString h.explode raw with
                 | some pairs => if emptyNameCorner s pairs then ["dec.empty_name_corner"] else []
                 | none => ["dec.obj_malformed"])
